@@ -412,11 +412,9 @@ pub mod merge_hooks { use super::*;
 }
 pub mod clone_hooks { use super::*;
     #[verifier::external_body]
-    /// DEVIATION (REPORT.md, finding 2): handle_git calls this hook OUTSIDE any catch_unwind guard, so it is the one hook stub without
-    /// the `in_guard` precondition; a panic in it (e.g. `print!` to a closed pipe) replaces the status of a clone that succeeded.
     pub fn post_clone_hook(parsed_args: &ParsedGitInvocation, exit_status: ExitStatus, Tracked(w): Tracked<&mut World>)
-        requires git_ran_once_with(trace(*old(w)), exit_status),
-        ensures in_guard(*final(w)) == in_guard(*old(w)), trace(*final(w)) == trace(*old(w)).push(Ev::Hook(HookId::PostClone)),
+        requires in_guard(*old(w)), git_ran_once_with(trace(*old(w)), exit_status),
+        ensures in_guard(*final(w)), trace(*final(w)) == trace(*old(w)).push(Ev::Hook(HookId::PostClone)),
     { unimplemented!() }
 }
 pub struct FeatureFlags { pub rewrite_stash: bool }
@@ -950,7 +948,26 @@ proof fn theorem_refusal_only_from_checkpoint(p: ParsedGitInvocation, t0: Seq<Ev
     }
 }
 
-//#item file=src/commands/git_handlers.rs kind=fn name=handle_git opaque='[{"expr": "std::env::args().skip(1).collect()", "call": "opq_process_args()"}, {"expr": "parsed_args.command.as_deref() == Some(\"clone\")", "call": "opq_cmd_is_clone(&parsed_args.command)"}, {"expr": "parsed_args.command.as_deref().unwrap_or(\"unknown\")", "call": "opq_cmd_name(&parsed_args.command)"}, {"expr": "child_hooks_path_override.as_deref()", "call": "opq_opt_deref(&child_hooks_path_override)"}, {"expr": "repository_option.as_mut().unwrap()", "call": "opq_repo_mut(&mut repository_option)"}]'
+/// O1 stub for the statement `let _ = std::panic::catch_unwind(std::panic::AssertUnwindSafe(|| { <region clone_guarded> }));` in
+/// handle_git (the guard added by /repo 824c9a69): carries the contract proved for the closure body; a panic cuts it short
+#[verifier::external_body]
+fn opq_guarded_post_clone(parsed_args: &ParsedGitInvocation, exit_status: ExitStatus, Tracked(w): Tracked<&mut World>, _u: ()) -> (r: Result<(), PanicPayload>)
+    requires git_ran_once_with(trace(*old(w)), exit_status), !in_guard(*old(w)),
+    ensures !in_guard(*final(w)),
+        trace(*final(w)) == trace(*old(w)).push(Ev::Hook(HookId::PostClone)) || trace(*final(w)) == trace(*old(w)),
+        r is Ok ==> trace(*final(w)) == trace(*old(w)).push(Ev::Hook(HookId::PostClone)),
+{ unimplemented!() }
+//#item file=src/commands/git_handlers.rs kind=region name=clone_guarded in=handle_git from="clone_hooks::post_clone_hook(&parsed_args, exit_status);" to="$block_end" from_nth=0 to_nth=0
+//@ fn region_clone_guarded(parsed_args: ParsedGitInvocation, exit_status: std::process::ExitStatus, Tracked(w): Tracked<&mut World>)
+//@     // the clone hook may fail or panic: it is entered only under the panic guard, and it is told the child's status
+//@     requires git_ran_once_with(trace(*old(w)), exit_status), in_guard(*old(w)),
+//@     ensures trace(*final(w)) == trace(*old(w)).push(Ev::Hook(HookId::PostClone)),
+//@ {
+            clone_hooks::post_clone_hook(&parsed_args, exit_status /*@< , Tracked(w) >@*/);
+//@ }
+//#end
+
+//#item file=src/commands/git_handlers.rs kind=fn name=handle_git opaque='[{"expr": "std::env::args().skip(1).collect()", "call": "opq_process_args()"}, {"expr": "parsed_args.command.as_deref() == Some(\"clone\")", "call": "opq_cmd_is_clone(&parsed_args.command)"}, {"expr": "parsed_args.command.as_deref().unwrap_or(\"unknown\")", "call": "opq_cmd_name(&parsed_args.command)"}, {"expr": "child_hooks_path_override.as_deref()", "call": "opq_opt_deref(&child_hooks_path_override)"}, {"expr": "repository_option.as_mut().unwrap()", "call": "opq_repo_mut(&mut repository_option)"}, {"stmt_from": "let _ = std::panic::catch_unwind(std::panic::AssertUnwindSafe(|| {", "call": "let _ = opq_guarded_post_clone(&parsed_args, exit_status, Tracked(w), (()"}]'
 pub fn handle_git(args: &[String] /*@< , Tracked(w): Tracked<&mut World> >@*/)
 //@     requires trace(*old(w)) == Seq::<Ev>::empty(), !in_guard(*old(w)),
 //@     // every path ends in a process exit: the function does not return to main (whose fall-through would be exit 0)
@@ -992,9 +1009,11 @@ pub fn handle_git(args: &[String] /*@< , Tracked(w): Tracked<&mut World> >@*/)
             exit_with_status(exit_status /*@< , Tracked(w) >@*/);
         }
         //@ let ghost tc = trace(*w);
-        clone_hooks::post_clone_hook(&parsed_args, exit_status /*@< , Tracked(w) >@*/);
+        // Like every other hook, the clone hook must never change what the caller sees: a panic
+        // inside it (e.g. printing to a closed stdout) is swallowed and git's status is handed on.
+        let _ = opq_guarded_post_clone(&parsed_args, exit_status, Tracked(w), (()));
         //@ proof { lemma_push_keeps_once(tc, Ev::Hook(HookId::PostClone), exit_status); }
-        //@ assert(trace(*w) == seq![Ev::Spawn(invocation_of(p0), exit_status)].push(Ev::Hook(HookId::PostClone)));
+        //@ assert(trace(*w) == seq![Ev::Spawn(invocation_of(p0), exit_status)].push(Ev::Hook(HookId::PostClone)) || plain_run_ok(p0, trace(*w), exit_status));
         exit_with_status(exit_status /*@< , Tracked(w) >@*/);
     }
 
